@@ -40,9 +40,11 @@ func run(tier core.Tier) *core.Report {
 	// the subscribers' filters): the same enumerations with their own bounds
 	n, bound := 4, 2
 	vn, vbound := 3, 1
+	tn, tbound := 3, 1
 	if tier == core.Thorough {
 		n, bound = 5, 4
 		vn, vbound = 4, 2
+		tn, tbound = 4, 2
 	}
 	t0 := time.Now()
 	runFilters(rep, tier)
@@ -50,10 +52,12 @@ func run(tier core.Tier) *core.Report {
 	t0 = time.Now()
 	seqs, dels := runSequential(rep, n, 0, 1, "")
 	vseqs, vdels := runSequential(rep, vn, 1, numVariants(), "_header_variants")
+	tseqs, tdels := runSequential(rep, tn, numVariants(), numPopulations(), "_twin_populations")
 	tSeq := time.Since(t0)
 	t0 = time.Now()
 	scheds, complete := runConcurrent(rep, bound, 0, 1)
 	vscheds, vcomplete := runConcurrent(rep, vbound, 1, numVariants())
+	tscheds, tcomplete := runConcurrent(rep, tbound, numVariants(), numPopulations())
 	tConc := time.Since(t0)
 	rep.Set("dispatch.sequences", seqs)
 	rep.Set("dispatch.sequence_length", n)
@@ -64,11 +68,24 @@ func run(tier core.Tier) *core.Report {
 		"variants": numVariants() - 1, "m0_from": varFrom, "m0_bcname": varBc,
 		"rule":            "message m0 of the base population with every other (From, Bcname) of the two alphabets (equal, empty, other value, proper prefix, extension - relative to the sender filter of s1 and the chain filter of s0); per variant all operation sequences of the given length and all schedules of the 6 concurrent patterns within the given preemption bound, judged by the same history oracle with the reference predicate (filter empty -> any, else equality)",
 		"sequence_length": vn, "sequences": vseqs, "deliveries_observed": vdels, "preemption_bound": vbound, "schedules": vscheds})
+	var twinNames []string
+	for t := 0; t < numTwins(); t++ {
+		twinNames = append(twinNames, variantName(numVariants()+t))
+	}
+	var twinPatternNames []string
+	for _, p := range concPatterns[basePatterns:] {
+		twinPatternNames = append(twinPatternNames, p.Name)
+	}
+	rep.Set("dispatch.twin_populations", map[string]interface{}{
+		"populations": numTwins(), "twins": twinNames, "m0": variantSpec(0).ident(0).String(),
+		"rule":            "message identity dimension: the base population plus a fourth message m3 that is a twin of m0 - equal to m0 in every component but one (payload; type; chain name; sender; log id), an equal copy in a separate object, or m0 with the boundary between two adjacent header fields moved by one character (header tuples differ, their plain concatenation does not). Per population all operation sequences of the given length over the 10 operations (3 register, 3 unregister, 4 dispatch) and all schedules of the twin patterns within the given preemption bound, all inside the de-duplication window, judged by the same history oracle whose notion of 'repeat' is the reference identity: same message iff header tuple (type, chain, sender, log id) AND payload are equal; every distinct message is owed exactly one delivery to every registered matching subscriber, a repeat none. A sequence is non-trivial when it delivers something (distinct outcomes counted)",
+		"patterns":        twinPatternNames,
+		"sequence_length": tn, "sequences": tseqs, "deliveries_observed": tdels, "preemption_bound": tbound, "schedules": tscheds})
 	rep.Set("dispatch.part_wall_ms", map[string]int{"filter_matrix": int(tFilter / time.Millisecond), "sequences": int(tSeq / time.Millisecond), "schedules": int(tConc / time.Millisecond)})
-	rep.Add("states", seqs+scheds+vseqs+vscheds)
-	rep.Add("transitions", seqs*n+scheds+vseqs*vn+vscheds)
-	rep.Add("traces_validated_against_impl", seqs+scheds+vseqs+vscheds)
-	if !complete || !vcomplete {
+	rep.Add("states", seqs+scheds+vseqs+vscheds+tseqs+tscheds)
+	rep.Add("transitions", seqs*n+scheds+vseqs*vn+vscheds+tseqs*tn+tscheds)
+	rep.Add("traces_validated_against_impl", seqs+scheds+vseqs+vscheds+tseqs+tscheds)
+	if !complete || !vcomplete || !tcomplete {
 		rep.Set("exhaustive", false)
 	}
 	core.RacePass(rep, "C20", "c20.dispatch")
@@ -92,11 +109,14 @@ func replay(c json.RawMessage) (bool, string, error) {
 	vhook.Release()
 	switch cs.Part {
 	case "dispatch-seq":
-		if cs.Variant < 0 || cs.Variant >= numVariants() {
+		if cs.Variant < 0 || cs.Variant >= numPopulations() {
 			return false, "", fmt.Errorf("unknown header variant %d", cs.Variant)
 		}
 		f := newFixtureVariant(cs.Variant)
 		for _, o := range cs.Ops {
+			if o < 0 || o >= numOps(cs.Variant) {
+				return false, "", fmt.Errorf("unknown operation %d", o)
+			}
 			f.op(opNames[o].kind, opNames[o].arg)
 		}
 		if v := f.judge(); len(v) > 0 {
@@ -104,8 +124,8 @@ func replay(c json.RawMessage) (bool, string, error) {
 		}
 		return false, "sequence replayed without violation", nil
 	case "dispatch-conc":
-		if cs.Variant < 0 || cs.Variant >= numVariants() {
-			return false, "", fmt.Errorf("unknown header variant %d", cs.Variant)
+		if p0, p1 := patternRange(cs.Variant); cs.Variant < 0 || cs.Variant >= numPopulations() || cs.Pattern < p0 || cs.Pattern >= p1 {
+			return false, "", fmt.Errorf("unknown population %d / pattern %d", cs.Variant, cs.Pattern)
 		}
 		in := newConcVariant(cs.Pattern, cs.Variant)()
 		// a schedule recorded on a tree with a different synchronisation structure
